@@ -149,7 +149,13 @@ def gen_cases(tier, seed, shard, nshards):
     bad_texts = [[" LDA #\n"], [" XYZ 5\n"], ["L NOP\nL NOP\n"], [" JMP UNDEF\n"], [" LDA #1/0\n"], [" BRA FAR\n"] + [" RMB 200\n"] + ["FAR NOP\n"],
                  [" NAM T\n", " ORG $1000\n", " LDA 5,Z\n"], [" INCLUDE nosuch.asm\n"], [" FCB 256\n"], [" END\n"], [" LDA [\n"],
                  [" NAM T\n", " ORG $1000\n", "S LDA T,PCR\n"] + [" NOP\n"] * 122 + ["T RTS\n"], [" FCC \"abc\n"], [" LDA L,X\n", "L NOP\n"],
-                 ["V EQU W\n", "W EQU 5\n"], [" ORG $FFFF\n", " LDX #1\n"], [" STA #1\n"], [" LEAX $10\n"], [" TFR A,X\n"]]
+                 ["V EQU W\n", "W EQU 5\n"], [" ORG $FFFF\n", " LDX #1\n"], [" STA #1\n"], [" LEAX $10\n"], [" TFR A,X\n"],
+                 [" ORG $FFFE\n", " LDA #1\n", "L NOP\n", " NOP\n"], [" ORG $FFF0\n", " RMB 100\n", " NOP\n"], ["V EQU W+1\n", "W EQU 5\n", " LDA #V\n"],
+                 ["L NOP\n", " LDA #L/0\n"], [" LDX #65535*2\n"], ["L NOP\n", " FDB L*70000\n"]]
+    for k, t in enumerate(bad_texts):
+        i += 1
+        if i % nshards == shard:
+            yield {"id": "crafted/%d" % k, "form": "crafted", "lines": "".join(t).splitlines(True)}
     for k, t in enumerate(bad_texts):
         for sw in (["--to_bin", "o.bin"], ["--to_cas", "o.cas"], ["--to_dsk", "o.dsk"], ["--to_bin", "o.bin", "--to_cas", "o.cas", "--to_dsk", "o.dsk"],
                    ["--print", "--symbols"]):
